@@ -11,6 +11,8 @@ META = {
     'level': 'other',
     'configs': {'quick': ['default'], 'thorough': ['default', 'norayon', 'default_nodebug']},
     'rules': {
+        'R7': 'one position for a wrapped neighbour (C03.R5): the point handed to the exact predicate (HalfSpace::right_loc) is generators[right].loc + shift, the same normal form the '
+              'builder used for the bisector; a different sign or a dropped shift makes the float filter and the exact predicate talk about different points',
         'R1': 'image enumeration: per dimensionality the wrapped search seeds the heap with every root child under every shift (i*w_x, j*w_y, k*w_z), '
               'i,j,k in {-1,0,1} on active axes and {0} on inactive axes, each combination once; children inherit the shift of their parent',
         'R2': 'reported shift == -(query shift), None iff zero (C03.R4)',
@@ -33,7 +35,7 @@ def run(ctx):
     for cfg in ctx.configs_used:
         F = ctx.facts(cfg)
         sfx = '' if cfg == 'default' else '@' + cfg
-        for fn in (r1, r2, r3, r4, r5, r6):
+        for fn in (r1, r2, r3, r4, r5, r6, r7):
             rule = 'C06.' + fn.__name__.upper()
             ctx.guarded(rule, 'evaluate' + sfx, lambda: fn(ctx, F, rule, sfx))
 
@@ -204,3 +206,8 @@ def r5(ctx, F, rule, sfx):
 def r6(ctx, F, rule, sfx):
     from . import c01
     c01.r1(ctx, F, rule, sfx)
+
+
+def r7(ctx, F, rule, sfx):
+    from . import c03
+    c03.r5(ctx, F, rule, sfx)
